@@ -1,0 +1,11 @@
+//go:build !verif
+
+// Package verifhook provides yield points for the verification harness in /verif.
+// Without the build tag `verif` At is an empty function that the compiler inlines away.
+package verifhook
+
+// At marks a shared-memory operation that follows immediately; a no-op in normal builds.
+func At(site string) {}
+
+// Enabled reports whether the package was built with the `verif` tag.
+const Enabled = false
